@@ -34,10 +34,27 @@ def jobs(tier, seed, mode):
             if k in seen:
                 continue
             seen.add(k)
-            wb, src = logicgen.build(rows, seed=seed * 10 + variant, mode=mode)
+            # odd variants: one question inside a repeat shares its name with a question outside every repeat
+            wb, src = logicgen.build(rows, seed=seed * 10 + variant, mode=mode, homonyms=variant % 2 == 1)
             fmt = "md" if i % 13 == 0 else "dict"
             res.append({"wb": wb, "src": src, "fmt": fmt, "shapes": [rows, variant], "seed": seed, "feat": [mode], "tag": {"rows": rows, "variant": variant}})
     return res, meta
+
+
+def _diagnose(o, clause):
+    """Name the one known way a valid form is refused: the target of a trigger is looked up by bare name."""
+    import re
+
+    if clause != "valid_form_accepted" or o["res"]["status"] != "pyxform_error":
+        return ""
+    m = re.search(r"replace \$\{([^}]*)\} with the XPath to the survey element named '([^']*)'. There are multiple", o["res"].get("message") or "")
+    if not m:
+        return ""
+    name = m.group(2)
+    sv = o["wb"]["sheets"][0]
+    written = any(isinstance(c, str) and "${" + name + "}" in c for r in sv["rows"] for c in r)
+    is_target = any(t[0][-1] == name for t in o["trace"][-1]["src"].get("triggers", []))
+    return ":trigger_target_name_not_unique" if is_target and not written else ""
 
 
 def run(rep, prop, mode, canary_fn):
@@ -49,6 +66,7 @@ def run(rep, prop, mode, canary_fn):
     nok = sum(1 for o in sub if o["res"]["status"] != "pyxform_error")  # only rejections by the converter mean the generator left the grammar; crashes and malformed output go to TLC as violations
     rep.extra["accepted_forms"] = nok
     for o, l, clause in rejected:
+        clause = clause + _diagnose(o, clause)
         rep.violation(f"{prop}:{clause}", f"trace rejected at event {l} clause {clause}; rows={o['tag']['rows']} status={o['res']['status']} {o['res'].get('message')}",
                       {"tag": o["tag"], "clause": clause, "event": l, "wb": o["wb"], "src": o["trace"][-1]["src"], "fmt": o["fmt"]})
     for o in sub[50:52]:
